@@ -22,6 +22,9 @@ type globalInit struct {
 
 var globalInits = map[string]*globalInit{}
 var globalDefs = map[string]string{} // key -> lean name (once translated)
+// package-level variables that have an initialiser AND are modified by an init(): translated code must not read the
+// initialiser as their value (checked at the end of the run)
+var initModified = map[string]bool{}
 
 type leanDef struct {
 	name string
@@ -155,6 +158,7 @@ func translateFuncMode(fi *funcInfo, chk bool) {
 		t.fail(fi.decl, "partially named results")
 	}
 	ws := t.writesOf(fi.decl.Body)
+	t.fnDeep = t.writesOfOpt(fi.decl.Body, true).deep
 	initPre := ""
 	if fi.decl.Name.Name == "init" && fi.decl.Recv == nil {
 		// an init(): the package-level variables it assigns are local to the translation and form its result
@@ -168,6 +172,7 @@ func translateFuncMode(fi *funcInfo, chk bool) {
 		for _, v := range t.initOrder() {
 			val := zeroValue(v.Type())
 			if g, ok := globalInits[fi.pkgdir+"."+v.Name()]; ok {
+				initModified[fi.pkgdir+"."+v.Name()] = true
 				// declared with an initialiser: that value is what init starts from
 				tt := newTr(&funcInfo{key: fi.key, pkgdir: fi.pkgdir, pkg: g.pkg}, g.pkg.TypesInfo)
 				val = tt.expr(g.val)
@@ -501,6 +506,11 @@ func main() {
 	}
 	b.WriteString("]\nend I3.Gen.Go\n")
 	writeIfChanged(filepath.Join(out, "GoIndex.lean"), b.String())
+	for k := range initModified {
+		if _, ok := globalDefs[k]; ok {
+			die("package-level variable %s has an initialiser, is modified by init() and is read by translated code", k)
+		}
+	}
 	fmt.Printf("gen_go: %d functions translated, %d skipped, %d package-level values\n", len(translated), len(skipped), len(globalDefs))
 }
 
